@@ -312,10 +312,10 @@ def o16_3u(tier):
         j = z3.Int("j_")
 
         def inv(look, k):
-            new = look("xres_new")
-            return z3.And(look("xres_i") == rank(k), k <= n,
+            new = look.kind("seq")               # the result array (whatever the function calls it)
+            return z3.And(look.kind("int") == rank(k), k <= n,
                           z3.ForAll([j], z3.Implies(z3.And(0 <= j, j < k), z3.Select(new.array, j) == z3.If(excl(j), z3.RealVal(-1), z3.Select(xarr, rank(j))))))
-        ctx.invariant("forsys.fmatrix:ForceMatrix.get_solution_no_discarded", 0, inv, modifies=["xres_new", "xres_i"])
+        ctx.invariant("forsys.fmatrix:ForceMatrix.get_solution_no_discarded", 0, inv)      # modified locals taken from the loop's AST
         res = ctx.callm(fm, "get_solution_no_discarded", xres)
         ctx.ensure(isinstance(res, modeb.SymSeq) and ctx.eq(res.length, n), "one entry per internal interface")
         p = ctx.int("p")
@@ -387,12 +387,12 @@ def o16_4u(tier):
             j = z3.Int("j_")
 
             def inv(look, k):
-                cur, rem = look("x0"), look("removed_indices")
+                cur, rem = look.kind("seq"), look.kind("map")
                 return z3.And(k <= n,
                               z3.ForAll([j], z3.Select(cur.array, j) == z3.If(z3.And(0 <= j, j < k, excl(j)), mark, z3.Select(old, j))),
                               z3.ForAll([j], rem.has(j) == z3.And(0 <= j, j < k, excl(j))),
                               z3.ForAll([j], z3.Implies(rem.has(j), rem.at(j) == z3.Select(old, j))))
-            ctx.invariant("forsys.fmatrix:ForceMatrix.get_new_initial_condition", 0, inv, modifies=["x0", "removed_indices", "both_count"])
+            ctx.invariant("forsys.fmatrix:ForceMatrix.get_new_initial_condition", 0, inv)
             res, removed = ctx.list_of(ctx.callm(fm, "get_new_initial_condition", x0, what=what))
             ctx.ensure(res is x0 and ctx.eq(res.length, L), "the list itself, length unchanged")
             p = ctx.int("p")
